@@ -351,7 +351,10 @@ pub fn install_panic_hook() {
 
 pub fn guard<T>(f: impl FnOnce() -> Result<T, PasetoError>) -> Out<T> {
     GUARD_DEPTH.with(|d| d.set(d.get() + 1));
-    let r = catch_unwind(AssertUnwindSafe(f));
+    let r = {
+        let _in_library = crate::ffiyield::lib_scope();
+        catch_unwind(AssertUnwindSafe(f))
+    };
     GUARD_DEPTH.with(|d| d.set(d.get() - 1));
     match r {
         Ok(Ok(t)) => Out::Ok(t),
